@@ -12,6 +12,7 @@ from .chains_common import chain_snapshots, chain_only_pushed, chain_always_push
 from .compiler_common import PX
 
 LEVEL = 'other'
+TECHNIQUE = 'static analysis: snapshot provenance per UserComponent variant (closures and adaptors included), always-appended by reachability, stage-assembly ordering, quote! template read from MIR (tier B)'
 CLAUSE = ('middleware chains are only appended to; a nested blueprint is queued, with a clone of the current chain, at the moment it is visited; '
           'ComponentDb computes every handler\'s chain as [noop] ++ that handler\'s own snapshot, by pushes in order, without a cache across '
           'handlers; the stage-function template evaluates pre-processors inside a labelled block that an early return `break`s out of (never '
